@@ -1,0 +1,16 @@
+//go:build verif
+
+package dock
+
+import (
+	"io"
+)
+
+// This file is only built with the "verif" tag. It exposes the tar
+// extraction used by CopyOutTar to an external verification harness; it adds
+// no behaviour to the package.
+
+// VerifWriteTarToDir is writeTarToDir.
+func VerifWriteTarToDir(r io.Reader, destDir string) error {
+	return writeTarToDir(r, destDir)
+}
